@@ -51,6 +51,9 @@ pub enum UnmarshalError {
     /// A message indicated an invalid message type
     #[error("A message indicated an invalid message type")]
     InvalidMessageType,
+    /// A message indicated a protocol version other than 1
+    #[error("A message indicated a protocol version other than 1")]
+    InvalidProtocolVersion,
     /// There was a mismatch between expected an encountered signatures
     /// (e.g. trying to unmarshal a string when there is a u64 in the message)
     #[error("There was a mismatch between expected an encountered signatures")]
